@@ -62,9 +62,9 @@ pub open spec fn opt_set<T>(o: Option<T>, old: Option<T>) -> Option<T> {
 
 impl ConfigFile {
     spec fn eff_chunker(&self) -> Chunker { match self.chunker { Some(c) => c, None => Chunker::Rabin } }
-    spec fn eff_chunk_size(&self) -> usize { match self.chunk_size { Some(c) => c, None => (1024 * 1024) as usize } }
-    spec fn eff_chunk_min_size(&self) -> usize { match self.chunk_min_size { Some(c) => c, None => (512 * 1024) as usize } }
-    spec fn eff_chunk_max_size(&self) -> usize { match self.chunk_max_size { Some(c) => c, None => (8 * 1024 * 1024) as usize } }
+    spec fn eff_chunk_size(&self) -> usize { match self.chunk_size { Some(c) => c, None => constants::DEFAULT_CHUNK_SIZE } }
+    spec fn eff_chunk_min_size(&self) -> usize { match self.chunk_min_size { Some(c) => c, None => constants::DEFAULT_CHUNK_MIN_SIZE } }
+    spec fn eff_chunk_max_size(&self) -> usize { match self.chunk_max_size { Some(c) => c, None => constants::DEFAULT_CHUNK_MAX_SIZE } }
 }
 
 // after-state of each segment of ConfigOptions::apply as a function of the before-state: exactly the
